@@ -27,6 +27,7 @@ def run(ctx, rep):
     e19_homcalc.check_summand(facts, rep)
     rep.rule('E3', e3_gcd.__doc__.strip().split('\n')[0])
     e3_gcd.run(facts, rep)
+    e3_gcd.check_bezout_loop(facts, rep)
     rep.rule('E21', e21_snfscan.__doc__.strip().split('\n')[0])
     e21_snfscan.run(facts, rep)
     e2_float.apply(facts, rep, scope, 'C07', floor_scope=5)
